@@ -1,8 +1,15 @@
 package hdr
 
 import (
+	"testing"
+
+	"verifharness/internal/evid"
 	"verifharness/internal/model"
 	"verifharness/internal/vt"
+
+	"github.com/tokenized/bitcoin_reader/headers"
+	"github.com/tokenized/pkg/bitcoin"
+	"pgregory.net/rapid"
 )
 
 // checkLocator is the structural half of the C19 oracle (small heights: no split entries apply).
@@ -37,7 +44,7 @@ func (m *M) checkLocatorShape(inst *Inst, tip *model.Node, loc [][32]byte, mx in
 			continue
 		}
 		n := m.tree.ByHash[h]
-		if n == nil || !inst.acc[n] {
+		if n == nil || !(inst.acc[n] || inst.forgot[n]) { // the instance may hold more than it is obliged to
 			m.fail(inst, "GetLocatorHashes(%d)[%d] = %s is not a known header (%v)", mx, i, h, m.labels(loc))
 		}
 		if model.IsAncestorOrEqual(n, tip) {
@@ -78,6 +85,216 @@ func (m *M) labels(loc [][32]byte) []string {
 	r := make([]string, len(loc))
 	for i, h := range loc {
 		r[i] = m.label(model.Hash(h))
+	}
+	return r
+}
+
+// opPeerSync simulates a protocol-conformant peer: its best chain is the chain of a drawn accepted
+// header plus 0..4 headers we have not seen; it answers our locator with the headers that follow the
+// first locator hash found on ITS best chain. The first returned header must connect to a header
+// we hold, and a peer that is on our best chain must reply starting with our tip.
+func (m *M) opPeerSync(t *rapid.T) {
+	inst := m.insts[0]
+	p := m.pools()
+	var peerTip *model.Node
+	switch rapid.IntRange(0, 3).Draw(t, "peerOn") {
+	case 0:
+		peerTip = p.tip
+	case 1:
+		if len(p.sideTips) > 0 {
+			peerTip = rapid.SampledFrom(p.sideTips).Draw(t, "peerSide")
+		} else {
+			peerTip = p.tip
+		}
+	case 2: // behind us on our chain
+		peerTip = p.bestChain[rapid.IntRange(0, p.tip.Height).Draw(t, "behind")]
+	case 3:
+		peerTip = rapid.SampledFrom(p.all).Draw(t, "peerAny")
+	}
+	if !inst.held[peerTip] {
+		t.Skip("peer tip is outside the memory obligation")
+	}
+	ext := rapid.IntRange(0, 4).Draw(t, "peerAhead")
+	mx := rapid.SampledFrom([]int{1, 3, 10, 10}).Draw(t, "max")
+	peerChain := model.Chain(peerTip)
+	onPeer := map[model.Hash]int{}
+	for h, n := range peerChain {
+		onPeer[n.Hash] = h
+	}
+	var extRaws []model.RawHeader
+	cur := peerTip
+	for i := 0; i < ext; i++ {
+		if m.reorgTooDeep(cur, 0x1d00ffff) {
+			break
+		}
+		raw := m.newHeader(cur.Hash, cur.Raw.Timestamp, 0x1d00ffff)
+		extRaws = append(extRaws, raw)
+		cur = m.tree.AddChild(raw)
+	}
+	loc, err := inst.repo.GetLocatorHashes(vt.Ctx(), mx)
+	if err != nil {
+		m.fail(inst, "GetLocatorHashes(%d): %s", mx, err)
+	}
+	matched := -1
+	for _, h := range loc {
+		if hh, ok := onPeer[model.Hash(h)]; ok {
+			matched = hh
+			break
+		}
+	}
+	m.k.Op("peersync peerOnBest=%v ahead=%d max=%d matched=%v", model.IsAncestorOrEqual(peerTip, p.tip) || model.IsAncestorOrEqual(p.tip, peerTip), len(extRaws), mx, matched >= 0)
+	if matched < 0 {
+		return // no shared locator hash: nothing is promised
+	}
+	// the reply: everything after the matched header on the peer's chain
+	var reply []model.RawHeader
+	for h := matched + 1; h < len(peerChain); h++ {
+		reply = append(reply, peerChain[h].Raw)
+	}
+	reply = append(reply, extRaws...)
+	if len(reply) == 0 {
+		return
+	}
+	// a peer on our best chain at or beyond our tip answers starting with our tip
+	if tipH, ok := onPeer[p.tip.Hash]; ok && p.tip.Height >= 1 && tipH == p.tip.Height {
+		if reply[0].Hash() != p.tip.Hash {
+			m.fail(inst, "peer on our best chain (its tip %s@%d, ahead by %d) answers locator %v starting with %s instead of our tip %s", peerTip.Label, peerTip.Height, len(extRaws), m.labels32(loc), m.label(reply[0].Hash()), p.tip.Label)
+		}
+	}
+	m.peerSyncs++
+	for i, raw := range reply {
+		if i == 0 {
+			verr := inst.repo.ProcessHeader(vt.Ctx(), toWire(&raw))
+			if v := classify(verr); v == VUnknown || v == VWrongChain {
+				m.fail(inst, "first header of a conformant peer's reply (after shared locator hash at height %d) does not connect: %s (%v); locator %v", matched, v, verr, m.labels32(loc))
+			}
+		}
+		m.submit(raw, "peer reply")
+	}
+}
+
+func (m *M) labels32(loc []bitcoin.Hash32) []string {
+	r := make([]string, len(loc))
+	for i, h := range loc {
+		r[i] = m.label(model.Hash(h))
+	}
+	return r
+}
+
+const ruleC19splits = "a straight chain of 20..140 headers (optionally with 1..2 side branches) on which two synthetic foreign splits and the required split are installed at drawn heights with their before-hashes ON our chain (as on mainnet; verif hook VerifSetSplits), then the chain is extended one header at a time up to 500 more; at every tip and for max in {1,2,3,4,5,10,20,50}: every locator hash is a best-chain header, a split fork point or the base of a side branch; no hash appears twice; best-chain hashes newest first beginning with the tip's parent; at most max of them besides split fork points and branch bases; non-trivial = tip above both splits (back-off steps cross the split heights); distinct = (split heights, side branches, span)"
+
+func TestProp_C19_splits(t *testing.T) {
+	col := evid.For("C19", "splits", ruleC19splits)
+	rapid.Check(t, func(t *rapid.T) {
+		k := col.NewCase()
+		ctx := vt.Ctx()
+		base := rapid.IntRange(20, 140).Draw(t, "base")
+		more := rapid.IntRange(10, 500).Draw(t, "more")
+		s1 := rapid.IntRange(2, base-2).Draw(t, "split1")
+		s2 := rapid.IntRange(s1+1, base).Draw(t, "split2")
+		// pre-compute the chain so that the split hashes are known before submission
+		raws := []model.RawHeader{mainGenesis}
+		for i := 1; i <= base+more; i++ {
+			prev := raws[i-1]
+			raw := model.RawHeader{Version: 1, Prev: prev.Hash(), Timestamp: prev.Timestamp + 600, Bits: 0x1d00ffff, Nonce: uint32(i)}
+			raw.Merkle[0], raw.Merkle[1], raw.Merkle[2] = byte(i), byte(i>>8), 0x19
+			raws = append(raws, raw)
+		}
+		var fake1, fake2 bitcoin.Hash32
+		fake1[0], fake2[0] = 0xF1, 0xF2
+		splits := headers.Splits{
+			{Name: "F2", BeforeHash: bitcoin.Hash32(raws[s2-1].Hash()), AfterHash: fake2, Height: s2},
+			{Name: "F1", BeforeHash: bitcoin.Hash32(raws[s1-1].Hash()), AfterHash: fake1, Height: s1},
+		}
+		required := &headers.Split{Name: "OURS", BeforeHash: bitcoin.Hash32(raws[s2-1].Hash()), AfterHash: bitcoin.Hash32(raws[s2].Hash()), Height: s2}
+		repo := headers.NewRepository(&headers.Config{Network: bitcoin.MainNet, MaxBranchDepth: 144}, memstoreNew())
+		repo.DisableDifficulty()
+		repo.InitializeWithGenesis()
+		repo.VerifSetSplits(splits, required)
+		splitBefore := map[model.Hash]bool{raws[s1-1].Hash(): true, raws[s2-1].Hash(): true}
+		height := map[model.Hash]int{}
+		for i, r := range raws {
+			height[r.Hash()] = i
+		}
+		sideBase := map[model.Hash]bool{}
+		nSide := rapid.IntRange(0, 2).Draw(t, "sides")
+		var sideAt []int
+		for i := 1; i <= base+more; i++ {
+			if err := repo.ProcessHeader(ctx, toWire(&raws[i])); err != nil {
+				t.Fatalf("chain header %d: %s", i, err)
+			}
+			if i == base {
+				for s := 0; s < nSide; s++ {
+					f := rapid.IntRange(max(1, base-100), base-1).Draw(t, "sideFork")
+					if f+1 == s1 || f+1 == s2 {
+						continue // a header at a split height other than ours is refused as wrong chain
+					}
+					side := model.RawHeader{Version: 1, Prev: raws[f].Hash(), Timestamp: raws[f].Timestamp + 601, Bits: 0x1d00ffff, Nonce: uint32(9000 + s)}
+					if err := repo.ProcessHeader(ctx, toWire(&side)); err != nil {
+						t.Fatalf("side header at %d: %s", f+1, err)
+					}
+					sideBase[side.Hash()] = true
+					sideAt = append(sideAt, f+1)
+				}
+			}
+			if i < base {
+				continue
+			}
+			for _, mx := range []int{1, 2, 3, 4, 5, 10, 20, 50} {
+				loc, err := repo.GetLocatorHashes(ctx, mx)
+				if err != nil {
+					t.Fatalf("GetLocatorHashes: %s", err)
+				}
+				seen := map[model.Hash]bool{}
+				counted, last, first := 0, 1<<30, true
+				for _, h32 := range loc {
+					h := model.Hash(h32)
+					if seen[h] {
+						t.Fatalf("tip %d max %d: locator hash at height %d appears twice (splits at %d and %d): %v", i, mx, height[h], s1, s2, heightsOf(loc, height))
+					}
+					seen[h] = true
+					if sideBase[h] {
+						continue
+					}
+					hh, ok := height[h]
+					if !ok || hh > i {
+						t.Fatalf("tip %d max %d: locator hash %s is not a best-chain header, split fork point or side-branch base", i, mx, h)
+					}
+					if first && !splitBefore[h] {
+						if hh != i-1 {
+							t.Fatalf("tip %d max %d: best-chain hashes begin at height %d, not at the tip's parent: %v", i, mx, hh, heightsOf(loc, height))
+						}
+					}
+					if !splitBefore[h] || first {
+						first = false
+					}
+					if hh >= last {
+						t.Fatalf("tip %d max %d: best-chain hashes not newest first: %v", i, mx, heightsOf(loc, height))
+					}
+					last = hh
+					if !splitBefore[h] {
+						counted++
+					}
+				}
+				if counted > mx {
+					t.Fatalf("tip %d max %d: %d best-chain hashes besides split fork points: %v", i, mx, counted, heightsOf(loc, height))
+				}
+			}
+		}
+		k.Op("base=%d more=%d splits=%d,%d sides=%v", base/10, more/25, s1, s2, sideAt)
+		k.NonTrivial = true
+		k.Done()
+	})
+}
+
+func heightsOf(loc []bitcoin.Hash32, height map[model.Hash]int) []int {
+	r := make([]int, len(loc))
+	for i, h := range loc {
+		if hh, ok := height[model.Hash(h)]; ok {
+			r[i] = hh
+		} else {
+			r[i] = -1
+		}
 	}
 	return r
 }
